@@ -176,6 +176,67 @@ def structural_mutants(spec, dy=True):
     return out
 
 
+def visible_mismatch(t1, f1, t2, f2):
+    """Is there a structural difference between two serialised fragments that the *documents* show?  (A reloaded
+    operand only knows what its document says: below a sparse container without bins the document records nothing but
+    bins:type, so a difference hidden there cannot be rejected by anybody.)"""
+    from .. import grammar
+
+    if t1 != t2:
+        return True
+    if t1 == "Count":
+        return False
+    if t1 == "Bag":
+        return f1["range"] != f2["range"]
+    if t1 in ("Sum", "Average", "Deviate", "Minimize", "Maximize"):
+        return False
+    if t1 == "Bin":
+        if (f1["low"], f1["high"], len(f1["values"])) != (f2["low"], f2["high"], len(f2["values"])) or f1["values:type"] != f2["values:type"]:
+            return True
+        if visible_mismatch(f1["values:type"], f1["values"][0], f2["values:type"], f2["values"][0]):
+            return True
+        return any(visible_mismatch(f1[k + ":type"], f1[k], f2[k + ":type"], f2[k]) for k in ("underflow", "overflow", "nanflow"))
+    if t1 in ("SparselyBin", "Categorize"):
+        if t1 == "SparselyBin" and (f1["binWidth"], f1["origin"]) != (f2["binWidth"], f2["origin"]):
+            return True
+        if f1["bins:type"] != f2["bins:type"]:
+            return True
+        if t1 == "SparselyBin" and visible_mismatch(f1["nanflow:type"], f1["nanflow"], f2["nanflow:type"], f2["nanflow"]):
+            return True
+        if f1["bins"] and f2["bins"]:
+            a, b = next(iter(f1["bins"].values())), next(iter(f2["bins"].values()))
+            return visible_mismatch(f1["bins:type"], a, f2["bins:type"], b)
+        return False
+    if t1 in ("CentrallyBin", "IrregularlyBin", "Stack"):
+        key = "center" if t1 == "CentrallyBin" else "atleast"
+        if [b[key] for b in f1["bins"]] != [b[key] for b in f2["bins"]] or f1["bins:type"] != f2["bins:type"]:
+            return True
+        if f1["bins"] and visible_mismatch(f1["bins:type"], f1["bins"][0]["data"], f2["bins:type"], f2["bins"][0]["data"]):
+            return True
+        return visible_mismatch(f1["nanflow:type"], f1["nanflow"], f2["nanflow:type"], f2["nanflow"])
+    if t1 == "Select":
+        return f1["sub:type"] != f2["sub:type"] or visible_mismatch(f1["sub:type"], f1["data"], f2["sub:type"], f2["data"])
+    if t1 == "Fraction":
+        return f1["sub:type"] != f2["sub:type"] or visible_mismatch(f1["sub:type"], f1["numerator"], f2["sub:type"], f2["numerator"])
+    if t1 == "Label":
+        if sorted(f1["data"]) != sorted(f2["data"]) or f1["sub:type"] != f2["sub:type"]:
+            return True
+        return any(visible_mismatch(f1["sub:type"], f1["data"][k], f2["sub:type"], f2["data"][k]) for k in f1["data"])
+    if t1 == "UntypedLabel":
+        if sorted(f1["data"]) != sorted(f2["data"]):
+            return True
+        return any(visible_mismatch(f1["data"][k]["type"], f1["data"][k]["data"], f2["data"][k]["type"], f2["data"][k]["data"]) for k in f1["data"])
+    if t1 == "Index":
+        if len(f1["data"]) != len(f2["data"]) or f1["sub:type"] != f2["sub:type"]:
+            return True
+        return any(visible_mismatch(f1["sub:type"], a, f2["sub:type"], b) for a, b in zip(f1["data"], f2["data"]))
+    if t1 == "Branch":
+        if len(f1["data"]) != len(f2["data"]):
+            return True
+        return any(visible_mismatch(a["type"], a["data"], b["type"], b["data"]) for a, b in zip(f1["data"], f2["data"]))
+    return True
+
+
 def _valid_spec(sp):
     for _, s in specmod.walk(sp):
         if s["p"] in ("Label", "Index"):
@@ -191,7 +252,7 @@ class C10(Scenario):
     prop = "C10"
     level = "fault_enumeration"
     profiles = ["misdelivery"]
-    budgets = {"quick": 8000, "thorough": 150000}
+    budgets = {"quick": 5000, "thorough": 100000}
     wall_caps = {"quick": 110, "thorough": 1500}
     block = 16
     rule = ("one run = one base case (tree T, accumulator state in {empty, filled, merged}, own data for the foreign "
@@ -204,7 +265,7 @@ class C10(Scenario):
     assumptions = ["any exception type counts as a rejection", "mutants whose construction fails (Label/Index type rule) are skipped and counted",
                    "operands are rebuilt from their recorded fills before every attempt, so one failed += cannot contaminate the next"]
     expected_faults = ["misdelivery"]
-    expected_probes = ["nested_mismatch", "mismatch_under_empty_sparse", "acc_filled"]
+    expected_probes = ["nested_mismatch", "mismatch_under_empty_sparse", "acc_filled", "operand_reloaded"]
 
     def generate(self, rng, tier, profile):
         big = tier == "thorough"
@@ -219,10 +280,11 @@ class C10(Scenario):
         acc_fill = [] if state == "empty" else [[s.randrange(n), s.pick(specmod.POS_WEIGHTS)] for _ in range(s.randint(1, 6))]
         acc_fill2 = [[s.randrange(n), s.pick(specmod.POS_WEIGHTS)] for _ in range(s.randint(0, 4))] if state == "merged" else None
         p_fill = [] if s.chance(0.25) else [[s.randrange(n), s.pick(specmod.POS_WEIGHTS)] for _ in range(s.randint(1, 6))]
+        reload_acc, reload_p = s.chance(0.2), s.chance(0.2)
         muts = [(dsc, m) for dsc, m in structural_mutants(sp) if _valid_spec(m)]
         steps = [{"op": "misdeliver", "what": dsc, "mutant": m, "form": f} for dsc, m in muts for f in FORMS]
         return {"spec": sp, "records": [specmod.enc_record(r) for r in recs], "acc_fill": acc_fill, "acc_fill2": acc_fill2,
-                "p_fill": p_fill, "steps": steps}
+                "p_fill": p_fill, "steps": steps, "reload_acc": reload_acc, "reload_p": reload_p}
 
     def _make(self, w, sp, fills, fills2, si):
         def one(fl):
@@ -262,10 +324,28 @@ class C10(Scenario):
             if acc is None or p is None:
                 w.bump("probe_mutant_not_constructible")
                 continue
+            # either side may be the immutable form that arrives over a JSON wire
+            import histogrammar as hg
+
+            if case.get("reload_acc"):
+                r = call(lambda: hg.Factory.fromJson(acc.toJson()))
+                if r.ok:
+                    acc = r.value
+                    w.bump("probe_operand_reloaded")
+            if case.get("reload_p"):
+                r = call(lambda: hg.Factory.fromJson(p.toJson()))
+                if r.ok:
+                    p = r.value
+                    w.bump("probe_operand_reloaded")
             # the mutant must really be a different structure
             zacc, zp = call(lambda: observe.observe(acc.zero())), call(lambda: observe.observe(p.zero()))
             da, dp = observe.observe(acc), observe.observe(p)
             form = st["form"]
+            if (case.get("reload_acc") or case.get("reload_p")) and not visible_mismatch(da["type"], da["data"], dp["type"], dp["data"]):
+                # the difference lies below a sparse container that is still empty: the documents do not record it, so
+                # nothing can be demanded of operands that were reloaded from them
+                w.bump("probe_mismatch_invisible_after_reload")
+                continue
             units += 1
             w.bump("fault_misdelivery")
             if "/" in st["what"]:
